@@ -93,6 +93,9 @@ def make_net(rng, idx, profile):
         return bb.finish([cur])
     if profile == "pattern":
         return netgen.pattern_net(rng, idx)
+    if profile.startswith("sweep:"):
+        # deterministic pattern sweep (harness/sweep.py): the job index selects the sub-kind of the family
+        return netgen.pattern_net(rng, idx, profile.split(":", 1)[1], variant=idx)
     if profile.startswith("pattern:"):
         return netgen.pattern_net(rng, idx, profile.split(":", 1)[1])
     if profile == "weird":
@@ -172,8 +175,16 @@ def _worker(job):
                 opts += more_options(rng)
         if net.name.endswith(("fc1_after_conv", "deep_slices")) and rng.random() < 0.5:
             opts = ["--accelerator-config", "ethos-u65-512"] + opts[2:]
+        if profile.startswith("sweep:"):
+            import sweep as sweep_mod
+
+            # the sweep's own configuration, whatever the name-based overrides above drew
+            opts = sweep_mod.config(rng, profile, idx) + (more_options(rng) if "more_opts" in want else [])
         data = netgen.serialize(net)
         out.update(desc=net.describe(), opts=opts, src_ops=[o.kind for o in net.ops])
+        import netgen_ext
+
+        out["src_tags"] = netgen_ext.source_tags(net)
         res = pipeline.compile_net(data, opts, name=f"n{idx}")
         out.update(status=res.status, exc=(type(res.exc).__name__ + ": " + str(res.exc))[:300] if res.exc is not None else "",
                    tb=res.tb[-1500:], ret=res.ret, exc_site=exc_site(res.tb, res.exc))
@@ -229,8 +240,9 @@ def replay_jobs(ck, want):
     return [(rp["seed"], rp["index"], rp["profile"], want)]
 
 
-def run_corpus(ck, n, profiles=None, want=("stream",), jobs=None, corpus_first=True):
-    """Compile `n` generated networks (plus the corpus) and return the list of worker outputs."""
+def run_corpus(ck, n, profiles=None, want=("stream",), jobs=None, corpus_first=True, sweep=False):
+    """Compile `n` generated networks (plus the corpus, plus the pattern sweep when `sweep`) and return the list of
+    worker outputs."""
     import pipeline
 
     pipeline.load_vela()       # build the C extension once, before forking
@@ -243,6 +255,10 @@ def run_corpus(ck, n, profiles=None, want=("stream",), jobs=None, corpus_first=T
     if corpus_first:
         for j, (p, s, i) in enumerate(CORPUS):
             jobs_list.append((s, i, p, want))
+    if sweep:
+        import sweep as sweep_mod
+
+        jobs_list += [(ck.seed, i, p, want) for p, i in sweep_mod.jobs(ck.thorough)]
     for i in range(n):
         jobs_list.append((ck.seed, i, profiles[i % len(profiles)], want))
     jobs = jobs or min(16, os.cpu_count() or 4)
